@@ -13,6 +13,7 @@ import (
 	"github.com/git-lfs/git-lfs/v3/tools/humanize"
 	"github.com/git-lfs/git-lfs/v3/tq"
 	"github.com/git-lfs/git-lfs/v3/tr"
+	"github.com/git-lfs/git-lfs/v3/verifhook"
 	"github.com/spf13/cobra"
 )
 
@@ -139,6 +140,7 @@ func smudge(gf *lfs.GitFilter, to io.Writer, from io.Reader, filename string, sk
 
 		LoggedError(err, tr.Tr.Get("Error downloading object: %s (%s): %s", filename, oid, err))
 		if !cfg.SkipDownloadErrors() {
+			verifhook.Exit(2)
 			os.Exit(2)
 		}
 	}
